@@ -95,6 +95,7 @@ def stepLine (d : D) (line : String) : D × String :=
     | some n, some c, some spe, some ffe, some ffs =>
       ({ cfg := ⟨spe, ffe, ffs⟩, clock := c, shares := List.replicate n (init c) }, "ok")
     | _, _, _, _, _ => (d, "bad-op")
+  | "realclock" :: _ => (d, "done")   -- implementation-side probe on the real wall clock (nothing to model)
   | "tick" :: _ =>
     match kvNat ws "dt" with
     | some dt => ({ d with clock := d.clock + dt }, "ok")
